@@ -63,6 +63,20 @@ def handle : P String := do
       pure ({ offset := off, shape := shape, val := ofList shape vals } : Placed))
     P.done
     pure (tab canvas (superpose imgs))
+  else if cmd = "coded" then do
+    -- coded <n> <levels> <vals>: multi-level coarsening of a 1-D array exactly as coded
+    let n ← P.nat; let levels ← P.nat
+    let vals ← P.list P.rat
+    P.done
+    let f := ofList [n] vals
+    match coarsenCodedLevels n levels n (fun i => f [i]) with
+    | .error e => pure e.show
+    | .ok (m, g) => pure (toString m ++ " | " ++ showRats ((List.range m).map g))
+  else if cmd = "equalize" then do
+    -- equalize <shape list> <dims list> <vs|none>: target shape of equalize_voxel_size
+    let shape ← P.list P.nat; let dims ← P.list P.rat; let vs ← P.opt P.rat
+    P.done
+    pure (showNats (equalizeShape { shape := shape, dims := dims, origin := [] } vs))
   else failure
 
 def dispatch (toks : List String) : Option String := (handle.run toks).map (·.1)
